@@ -309,4 +309,87 @@ def pickAway (c : Chain) (t : Nat) (cs : List Nat) : Nat :=
   | some x => x
   | none => cs.headD 0
 
+/-! ## call sites: lib/grandpa `Service.VerifyBlockJustification`, dot/sync `processBlockData` -/
+
+/-- what `VerifyBlockJustification` reads of GrandpaState: the change block of every set id (list
+    index = set id), the current set id, and the stored authorities (key, stored weight) of every set
+    id (`none`: nothing stored) -/
+structure GState where
+  change : List Nat
+  cur : Nat
+  auths : List (Option (List IdW))
+deriving Repr
+
+def GState.changeAt (g : GState) (i : Nat) : Option Nat := g.change[i]?
+
+def GState.authsAt (g : GState) (i : Nat) : Option (List IdW) :=
+  match g.auths[i]? with
+  | some (some a) => some a
+  | _ => none
+
+/-- the loop of `GrandpaState.GetSetIDByBlockNumber` (`curr` counts down; `none` = error) -/
+def setIdLoop (g : GState) (n : Nat) : Nat → Nat → Option Nat
+  | 0, _ => some 0
+  | fuel + 1, curr =>
+    match g.changeAt (curr + 1) with
+    | none => if curr = 0 then some 0 else setIdLoop g n fuel (curr - 1)
+    | some upper =>
+      match g.changeAt curr with
+      | none => none
+      | some lower =>
+        if n ≤ upper ∧ lower < n then some curr
+        else if upper < n then some (curr + 1)
+        else if curr = 0 then some 0
+        else setIdLoop g n fuel (curr - 1)
+
+def setIdAt (g : GState) (n : Nat) : Option Nat := setIdLoop g n (g.cur + 2) g.cur
+
+/-- the voter list `VerifyBlockJustification` builds: every stored authority with weight 1 -/
+def unitWs (a : List IdW) : List IdW := a.map (fun iw => (iw.1, 1))
+
+inductive WRes
+  | errSetId | errAuths | errVoters
+  | inner (j : JRes)
+  | ok (set : Nat)
+deriving DecidableEq, Repr
+
+/-- a signature made for set `sset` verifies only under that set id -/
+def resign (sset sid : Nat) (pcs : List Pre) : List Pre :=
+  pcs.map (fun p => { p with sigok := p.sigok && sset == sid })
+
+/-- `Service.VerifyBlockJustification(hash, number, encoded)` after a successful decode.
+    `weights = false`: as the code does, unit weights; `true`: the stored weights (specification). -/
+def wrapper (pick : List Nat → Nat) (weights : Bool) (g : GState) (ibBlk ibNum sset : Nat) (c : Chain)
+    (tBlk tNum : Nat) (pcs : List Pre) : WRes :=
+  match setIdAt g ibNum with
+  | none => .errSetId
+  | some sid =>
+    match g.authsAt sid with
+    | none => .errAuths
+    | some a =>
+      match newVoterSet (if weights then a else unitWs a) with
+      | none => .errVoters
+      | some vs =>
+        match verifyFinalizes pick 32 vs c tBlk tNum ibBlk (ibNum % 2 ^ 32) (resign sset sid pcs) with
+        | .ok => .ok sid
+        | e => .inner e
+
+/-- `blockImporter.processBlockData` for block data with a header and no body: what reaches the block
+    state.  `gadget` is the result of `VerifyBlockJustification` (round, set id) or an error. -/
+inductive ImpRes
+  | errVerify | errFinalise | errJustification
+  | finalised (round set : Nat)
+  | stored
+deriving DecidableEq, Repr
+
+def importData (hasJust : Bool) (gadget : Option (Nat × Nat)) (finFails justFails : Bool) : ImpRes :=
+  if hasJust then
+    match gadget with
+    | none => .errVerify
+    | some (r, s) =>
+      if finFails then .errFinalise
+      else if justFails then .errJustification
+      else .finalised r s
+  else .stored
+
 end Gossamer.C19
